@@ -140,3 +140,128 @@ func indexOf(s, sub string) int {
 	}
 	return -1
 }
+
+// unsubscribeProbe: one connection holds the channel `news`, the pattern `n*`
+// and a pattern spelled like the channel (`news`). Each unsubscribe removes
+// exactly the subscription it names - the pattern table for PUNSUBSCRIBE, the
+// channel table for UNSUBSCRIBE - and the connection keeps receiving through
+// the others.
+func unsubscribeProbe(ctx *core.Ctx, bin string) {
+	s, err := srv.Start(srv.Opts{Bin: bin})
+	if err != nil {
+		ctx.Inconclusive("unsubscribe probe: " + err.Error())
+		return
+	}
+	defer s.Kill9()
+	sub, err1 := respc.Dial(s.Addr(), 5*time.Second)
+	pub, err2 := respc.Dial(s.Addr(), 5*time.Second)
+	if err1 != nil || err2 != nil {
+		ctx.Inconclusive("unsubscribe probe: dial")
+		return
+	}
+	defer sub.Close()
+	defer pub.Close()
+	step := func(cmd []string, acks int) bool {
+		sub.Send(cmd...)
+		for i := 0; i < acks; i++ {
+			if r, err := sub.RecvTimeout(5 * time.Second); err != nil || r.Kind != '*' {
+				ctx.Inconclusive(fmt.Sprintf("unsubscribe probe: no acknowledgement of %q", cmd))
+				return false
+			}
+		}
+		return true
+	}
+	if !step([]string{"SUBSCRIBE", "news"}, 1) || !step([]string{"PSUBSCRIBE", "n*", "news"}, 2) {
+		return
+	}
+	type exp struct {
+		after []string // command sent before the PUBLISH (nil: none)
+		want  string   // frames due, sorted: m = message, p:<pattern> = pmessage
+	}
+	steps := []exp{
+		{nil, "m p:n* p:news"},
+		{[]string{"PUNSUBSCRIBE", "news"}, "m p:n*"},
+		{[]string{"UNSUBSCRIBE", "news"}, "p:n*"},
+		{[]string{"SUBSCRIBE", "news"}, "m p:n*"},
+		{[]string{"PUNSUBSCRIBE", "n*"}, "m"},
+	}
+	history := ""
+	for i, st := range steps {
+		if st.after != nil {
+			if !step(st.after, 1) {
+				return
+			}
+			history += fmt.Sprintf("%q; ", st.after)
+		}
+		payload := "u-" + strconv.Itoa(i)
+		if r, err := pub.Do("PUBLISH", "news", payload); err != nil || r.IsErr() {
+			ctx.Inconclusive("unsubscribe probe: PUBLISH failed")
+			return
+		}
+		var got []string
+		for {
+			r, err := sub.RecvTimeout(600 * time.Millisecond)
+			if err != nil {
+				break
+			}
+			if r.Kind != '*' || len(r.Arr) < 3 || r.Arr[len(r.Arr)-1].Str != payload {
+				continue
+			}
+			if r.Arr[0].Str == "message" {
+				got = append(got, "m")
+			} else if r.Arr[0].Str == "pmessage" {
+				got = append(got, "p:"+r.Arr[1].Str)
+			}
+		}
+		sortStrings(got)
+		ctx.Eval(1)
+		ctx.Distinct("unsubscribe|" + strconv.Itoa(i))
+		if g := joinStrings(got); g != st.want {
+			key := "lost:after-unsubscribe"
+			if len(got) > len(splitFields(st.want)) {
+				key = "extra:after-unsubscribe"
+			}
+			ctx.Violation(key, fmt.Sprintf("one connection after `SUBSCRIBE news`, `PSUBSCRIBE n* news`, %sthen `PUBLISH news %s`: received [%s], due [%s] (m = message, p:<pattern> = pmessage)", history, payload, g, st.want),
+				map[string]any{"step": i, "got": g, "want": st.want})
+			return
+		}
+	}
+}
+
+func sortStrings(a []string) {
+	for i := 1; i < len(a); i++ {
+		for j := i; j > 0 && a[j] < a[j-1]; j-- {
+			a[j], a[j-1] = a[j-1], a[j]
+		}
+	}
+}
+
+func joinStrings(a []string) string {
+	out := ""
+	for i, x := range a {
+		if i > 0 {
+			out += " "
+		}
+		out += x
+	}
+	return out
+}
+
+func splitFields(s string) []string {
+	var out []string
+	cur := ""
+	for _, c := range s {
+		if c == ' ' {
+			if cur != "" {
+				out = append(out, cur)
+			}
+			cur = ""
+			continue
+		}
+		cur += string(c)
+	}
+	if cur != "" {
+		out = append(out, cur)
+	}
+	return out
+}
